@@ -178,6 +178,8 @@ pub struct RunResult {
     pub final_free_checks: u64,
     pub refs_checks: u64,
     pub c03_checks: u64,
+    pub c08_checks: u64,
+    pub c08_recycled_checks: u64,
     pub max_since_write: u64,
     pub b_budget: u64,
     pub op_events: Vec<Vec<(String, usize)>>,
@@ -342,6 +344,11 @@ fn worker(me: usize, arena: sync::Arena, prog: Vec<POp>, hid_base: u64) {
                     if cap > 0 && matches!(req, Req::Bytes(_)) {
                         let m = unsafe { std::slice::from_raw_parts((base + off as usize) as *const u8, cap as usize) };
                         zero_ok = m.iter().all(|b| *b == 0);
+                        let mut c = lock();
+                        c.c08_checks += 1;
+                        if off != boff {
+                            c.c08_recycled_checks += 1;
+                        }
                     }
                     // C03 under concurrency: requested capacity and alignment
                     {
@@ -876,6 +883,8 @@ pub fn run_once(rc: &RunCfg, replay: Option<Vec<u8>>) -> RunResult {
         final_free_checks: c.final_free_checks,
         refs_checks: c.refs_checks,
         c03_checks: c.c03_checks,
+        c08_checks: c.c08_checks,
+        c08_recycled_checks: c.c08_recycled_checks,
         max_since_write: c.max_since_write_seen,
         b_budget: c.b_budget,
         op_events: vec![],
@@ -1077,7 +1086,14 @@ pub fn sample_run_cfg(rng: &mut Rng, seed: u64, run: u64, prop: &str, family_b: 
     RunCfg {
         freelist,
         unify: rng.bool(),
-        min_seg: *rng.pick(&[1u32, 8, 20]),
+        min_seg: {
+            let m = *rng.pick(&[1u32, 8, 20]);
+            if run % 8 == 5 {
+                0
+            } else {
+                m
+            }
+        },
         cap_room: *rng.pick(&[256u32, 384, 512, 768, 1024]),
         retries: *rng.pick(&[1u8, 5]),
         threads,
@@ -1103,6 +1119,8 @@ fn report_run(out: &mut Out, prop: &str, rc: &RunCfg, r: &RunResult, extra_args:
     out.add("final_free_checks", r.final_free_checks);
     out.add("refs_checks", r.refs_checks);
     out.add("c03_concurrent_checks", r.c03_checks);
+    out.add("c08_concurrent_zero_checks", r.c08_checks);
+    out.add("c08_concurrent_zero_checks_on_recycled_segments", r.c08_recycled_checks);
     out.add("spurious_cas_failures_injected", r.spurious);
     out.maxv("max_accesses_without_progress_in_a_completed_call", r.max_since_write);
     out.maxv("progress_budget_B", r.b_budget);
